@@ -253,4 +253,16 @@ def init (c : Cfg) : St := { cfg := c }
 
 def run (s : St) (ops : List Op) : St := ops.foldl (fun s o => (step s o).1) s
 
+/-! ### client side (client/client.go): a response with `count` carries the highest logical value;
+the batch is handed out as `first + i << suffixBits` (`addLogical`), `first = logical - (count-1) << bits` -/
+
+def addLogical (logical : Int) (count : Int) (bits : Nat) : Int := logical + count * 2 ^ bits
+
+def clientSplit (logical count bits : Nat) : List Nat :=
+  (List.range count).map (fun (i : Nat) =>
+    (addLogical (addLogical (logical : Int) (-(count : Int) + 1) bits) (i : Int) bits).toNat)
+
+/-- the client's fallback detector -/
+def tsLessEqual (p l tp tl : Nat) : Bool := if p = tp then decide (l ≤ tl) else decide (p < tp)
+
 end PdModel.Tso
